@@ -33,3 +33,10 @@ Theorem C07_measure_index_sorted : forall bad text d, loads bad text = IOk d ->
   StronglySorted lt (d_mst d) /\ Forall (fun m => 1 <= m < List.length (d_stages d)) (d_mst d).
 Proof. exact loads_measure_index. Qed.
 Print Assumptions C07_measure_index_sorted.
+
+(* obligation regenerated from the source on every run: the code this property runs through keeps exactly the state the
+   model knows (no new attribute, class-level table, module-level binding or caching decorator), see proofs/State*Proofs.v *)
+From KV Require Import StateGen StateBase StateExportProofs StateDocumentProofs.
+Theorem C07_state_as_modelled : state_export = modelled_state_export /\ state_document = modelled_state_document.
+Proof. exact (conj state_export_as_modelled state_document_as_modelled). Qed.
+Print Assumptions C07_state_as_modelled.
